@@ -17,6 +17,7 @@ ALPHABETS: dict[str, str] = {
     "fstr": "a{}:!=r 3.\\'",
     "fstr2": "a{}:!=\n\"\\w,",
     "ind": " \ta\n\f#:",
+    "indent4": "\t a\n",
 }
 
 CARRIERS: dict[str, tuple[str, str]] = {
@@ -34,6 +35,10 @@ CARRIERS: dict[str, tuple[str, str]] = {
     "sub_open": ("$(", "\n"),
     "f2_open": ('f"', "\n"),
     "fb_open": ('f"{', "\n"),
+    "str3err": ('x = """', '""" +\n'),  # an error right after a multi-line token
+    "fstr3err": ('x = f"""', '""" +\n'),
+    "parenerr": ("f(", ") = 1\n"),  # an error whose span covers the bracket's lines
+    "ifblock": ("if a:\n", "\n"),
     "str1": ("'", "'\n"),
     "str3": ('"""', '"""\n'),
     "paren": ("(", ")\n"),
